@@ -9,7 +9,7 @@ sys.path.insert(0, os.path.join(os.path.dirname(os.path.abspath(__file__)), '..'
 import gen_runtime
 from extract import LostAnchor
 
-G_SCHEMAS = ['closure_plus', 'g_lookahead', 'char_rule', 'optional_multi', 'closure_star', 'nest_opt_closure_opt', 'seq_rebind', 'nest_closure_in_closure', 'include_chain', 'include_chain__inl', 'term_range_char_eoi']
+G_SCHEMAS = ['closure_plus', 'g_lookahead', 'char_rule', 'optional_multi', 'closure_star', 'nest_opt_closure_opt', 'seq_rebind', 'nest_closure_in_closure', 'include_chain', 'include_chain__inl', 'term_range_char_eoi', 'nest_lookahead_closure']
 
 def run_g(ctx):
     if 'G' in ctx.cache: return ctx.cache['G']
@@ -29,7 +29,7 @@ def run_g(ctx):
         except Exception as e:
             entry['why'] = 'extraction failed: %r' % e
             return entry
-        vr = layer_r.run_verus(path)
+        vr = layer_r.run_verus(path, extra=['--rlimit', '40'])   # the nested loops need ~8 of the default 10 units: leave a margin
         an = layer_r.analyse('runtime', path, index, vr)     # default property of unlabelled safety failures: C04
         entry['index'] = index
         entry['verus_cmd'] = vr.get('cmd'); entry['wall_s'] = vr.get('wall_s')
@@ -47,7 +47,7 @@ def run_g(ctx):
                 keys = [k for k in index.get('contract_keys', [])]
                 ck = tuple(keys[-1])
                 cpath, cindex = gen_runtime.generate_g(ctx.repo, os.path.join(ctx.scratch, 'G_' + schema + '_canary'), schema, os.path.join(T['gen'], schema + '.rs'), canary=ck)
-                cvr = layer_r.run_verus(cpath)
+                cvr = layer_r.run_verus(cpath, extra=['--rlimit', '40'])
                 can = layer_r.analyse('runtime', cpath, cindex, cvr)
                 failed = any(f.get('label') == 'CANARY' for f in can['failures'])
                 entry['canary'] = {'function': '::'.join(ck[1:]), 'failed_as_required': bool(failed)}
